@@ -1,0 +1,41 @@
+//go:build verif
+
+package hashcom
+
+// Contracts for the deductive checker in /verif (comment-only; compiled only under the verif tag).
+// The keyed hash is abstract. Assumed (free requires): hmacFunc(key) returns a keyed hash object whose initial
+// history is hkey(key); Write appends to the history (absorb) and Sum(nil) is the digest hsum of the history
+// (specs/stdlib.spec).
+
+//@ ghost func hkey(key []byte) V
+//@ pure func hcom(key []byte, message []byte, witness []byte) []byte = hsum(absorb(absorb(hkey(key), message), witness))
+
+// The commitment is the keyed digest of exactly (message, then witness) under exactly this key.
+//@ func (*CommitmentKey).CommitWithWitness
+//@   property C18, C10
+//@   purefn
+//@   free requires forall key []byte :: hst(res(hmacFunc(key), 0)) == hkey(key)
+//@   ensures k == nil ==> err != nil
+//@   ensures err == nil ==> result[:] == hcom(k[:], message, witness[:])
+
+//@ func Commitment.Equal
+//@   property C18, C10
+//@   purefn
+//@   ensures result == bytesEq(c[:], other[:])
+
+// Opening accepts only the digest of (message, witness) under this key, and rejects every other commitment.
+//@ func (*CommitmentKey).Open
+//@   property C18, C10
+//@   purefn
+//@   ensures result == nil ==> bytesEq(hcom(k[:], message, witness[:]), commitment[:])
+//@   ensures (k != nil && res(k.CommitWithWitness(message, witness), 1) == nil && !bytesEq(hcom(k[:], message, witness[:]), commitment[:])) ==> result != nil
+
+// Keys derived from a transcript are a function of the transcript history and the label.
+//@ func ExtractCommitmentKey
+//@   property C18
+//@   ensures err == nil ==> result != nil && forall j int :: 0 <= j && j < KeySize ==> (*result)[j] == textract(old(tsc(transcript)), label, KeySize)[j]
+
+//@ func (*CommitmentKey).Equal
+//@   property C18
+//@   purefn
+//@   ensures (k != nil && other != nil) ==> result == (*k == *other)
